@@ -71,6 +71,18 @@ def genOps2 : List (String × R String) := [
   ("g:hrp_expand", do let h ← chars; pure (ansG ints (Gen.bech32_hrp_expand h))),
   ("g:verify_checksum", do let h ← chars; let d ← listOf int; pure (ansG (optS toString) (Gen.bech32_verify_checksum h d))),
   ("g:create_checksum", do let h ← chars; let d ← listOf int; let sp ← int; pure (ansG ints (Gen.bech32_create_checksum h d sp))),
+  ("g:sign_norm", do
+      -- python-ecdsa as parameters: the signer replays the logged attempts (attempt k is asked for with entropy i_to_b32(k)),
+      -- the DER codec is the Spec's
+      let atts ← listOf bytes; let ht ← nat
+      let sign := fun (ent : Option Bytes) => match ent with
+        | none => atts.getD 0 []
+        | some b => atts.getD (Py.ofBE b) []
+      let dec := fun (b : Bytes) (_ : Int) => match Spec.derDecode b with
+        | some (r, s) => (Except.ok ((r : Int), (s : Int)) : Except PyErr (Int × Int))
+        | none => .error .valueError
+      let enc := fun (r s _n : Int) => Spec.derEncode r.toNat s.toNat
+      pure (ansG hex (Gen.sign_input sign dec enc (atts.length - 1) (List.replicate 32 0) (ht : Int)))),
   ("g:tr_root", do let t ← tree; pure (ansG hex (Gen.tag_hashed_merkle_root Crypto.sha256 Gen.OP_CODES (some (pyTree t))))),
   ("g:tr_cb", do
       let pub ← bytes; let t ← tree; let k ← nat; let odd ← bool
